@@ -1,3 +1,5 @@
+import NrDaemon.Props.Reviewed
+import NrDaemon.Gen.Skeleton
 import NrDaemon.Lemmas.Proc
 import NrDaemon.Lemmas.Lifecycle
 import NrDaemon.Props.Tied
@@ -370,3 +372,9 @@ are the ones the model was transcribed from. -/
 theorem C03_lifecycle_source_tied :
     Gen.Lifecycle.processHarvestError = reviewedHarvestError ∧ Gen.Lifecycle.processConnectAttempt = reviewedConnectAttempt :=
   ⟨rfl, rfl⟩
+
+
+/-! ## Ties to the current source: the functions transcribed by the model have not changed since they were reviewed (`Props/Reviewed.lean`) -/
+
+/-- **C03 (tie).**  `considerConnect`: state and back-off gate, time stamp, one attempt in its own goroutine. -/
+theorem C03_consider_connect_source_tied : Gen.Skeleton.considerConnect = Reviewed.considerConnect := rfl
